@@ -1330,3 +1330,92 @@ fn shared_group_membership_changes_keep_every_message() {
     }
     report(name, "C17", "3 strategies x (duplicate-subscribed member leaving midway: 4 and 9 messages, QoS 0/1; member joining over a backlog of 5 and 120)", cases, fail);
 }
+
+// ---------------------------------------------------------------------------------------------
+// C16 (router part only): the will is published exactly when a PublishWill signal arrives and no DISCONNECT
+// packet was seen; the timing/cancel decision that produces the signal (broker.rs::remote, async) is NOT covered
+// ---------------------------------------------------------------------------------------------
+pub fn connect_with_will(r: &mut Router, name: &str, clean: bool, will: Option<(&str, &str, u8, bool)>) -> Option<Client> {
+    let mut connection = Connection::new(None, name.to_owned(), clean, false);
+    if let Some((t, m, q, retain)) = will {
+        let qos = match q { 0 => QoS::AtMostOnce, 1 => QoS::AtLeastOnce, _ => QoS::ExactlyOnce };
+        connection.last_will(Some(crate::protocol::LastWill { topic: Bytes::copy_from_slice(t.as_bytes()), message: Bytes::copy_from_slice(m.as_bytes()), qos, retain }), None);
+    }
+    let incoming = Incoming::new(connection.client_id.to_owned());
+    let (outgoing, rx) = Outgoing::new(connection.client_id.to_owned());
+    let ibuf = incoming.buffer();
+    let obuf = outgoing.buffer();
+    r.events(0, Event::Connect { connection, incoming, outgoing });
+    settle(r);
+    let id = *r.connection_map.get(name)?;
+    Some(Client { id, name: name.to_owned(), ibuf, obuf, rx })
+}
+
+// @native props=C16 tier=quick fn=Router::{handle_last_will,handle_new_connection,handle_device_payload(Disconnect)}
+#[test]
+fn will_is_published_once_unless_the_client_said_disconnect() {
+    let name = "rumqttd::Router::handle_last_will#published_once_iff_no_disconnect_packet";
+    let mut cases = 0u64;
+    let mut fail: Option<String> = None;
+    'outer: for has_will in [false, true] {
+        for retain in [false, true] {
+            for said_disconnect in [false, true] {
+                for subscribers in 0..=2usize {
+                    for signals in 1..=2usize {
+                        for will_qos in 0..2u8 {
+                            cases += 1;
+                            let desc = format!("will registered: {}, retained will: {}, client sent DISCONNECT: {}, {} matching subscriber(s), PublishWill signalled {} time(s), will QoS {}", has_will, retain, said_disconnect, subscribers, signals, will_qos);
+                            let mut r = new_router();
+                            let mut subs = vec![];
+                            for i in 0..subscribers {
+                                let s = connect(&mut r, &format!("s{}", i), true).unwrap();
+                                send(&mut r, &s, vec![subscribe(1, &[("will/#", 0)])]);
+                                let _ = drain(&mut r, &s);
+                                subs.push(s);
+                            }
+                            let bystander = connect(&mut r, "bystander", true).unwrap();
+                            send(&mut r, &bystander, vec![subscribe(1, &[("other/#", 0)])]);
+                            let _ = drain(&mut r, &bystander);
+                            let w = if has_will { Some(("will/c", "gone", will_qos, retain)) } else { None };
+                            let c = connect_with_will(&mut r, "c", true, w).unwrap();
+                            if said_disconnect {
+                                send(&mut r, &c, vec![Packet::Disconnect(crate::protocol::Disconnect { reason_code: crate::protocol::DisconnectReasonCode::NormalDisconnection }, None)]);
+                            } else {
+                                r.events(c.id, Event::Disconnect);
+                                settle(&mut r);
+                            }
+                            for _ in 0..signals {
+                                r.events(c.id, Event::PublishWill(("c".to_owned(), None)));
+                                settle(&mut r);
+                            }
+                            let expect_will = has_will && !said_disconnect;
+                            for (i, s) in subs.iter().enumerate() {
+                                let got = receive_all(&mut r, s);
+                                let exp = if expect_will { vec![("will/c".to_string(), "gone".to_string(), 0u8, false)] } else { vec![] };
+                                if got != exp {
+                                    fail = Some(format!("input=[{}] detail=[subscriber {} received {:?}, expected {:?}]", desc, i, got, exp));
+                                    break 'outer;
+                                }
+                            }
+                            let stray = receive_all(&mut r, &bystander);
+                            if !stray.is_empty() {
+                                fail = Some(format!("input=[{}] detail=[a non-matching subscriber received {:?}]", desc, stray));
+                                break 'outer;
+                            }
+                            // a retained will is the retained message of its topic afterwards (and only then)
+                            let late = connect(&mut r, "late", true).unwrap();
+                            send(&mut r, &late, vec![subscribe(2, &[("will/#", 0)])]);
+                            let got = receive_all(&mut r, &late);
+                            let exp = if expect_will && retain { vec![("will/c".to_string(), "gone".to_string(), 0u8, true)] } else { vec![] };
+                            if got != exp {
+                                fail = Some(format!("input=[{}] detail=[a later subscriber received {:?}, expected {:?}]", desc, got, exp));
+                                break 'outer;
+                            }
+                        }
+                    }
+                }
+            }
+        }
+    }
+    report(name, "C16", "will registered or not x retained or not x DISCONNECT seen or not x 0..2 matching subscribers x 1..2 PublishWill signals x will QoS 0/1", cases, fail);
+}
